@@ -543,6 +543,22 @@ func (f *FuncCtx) callFunc(fn *types.Func, recv *Val, recvExpr ast.Expr, e *ast.
 	// abstract: results havocked, modelled state untouched -- except scalars passed by pointer, which the
 	// callee may overwrite (errors.As(err, &target), json.Unmarshal(b, &x), ...): those are havocked
 	f.havocPointerArgs(e, env)
+	// a pointer-receiver method called on an addressable local value may overwrite it (id.SetDecString(..))
+	if recvExpr != nil {
+		if id, ok := ast.Unparen(recvExpr).(*ast.Ident); ok {
+			if r := fn.Type().(*types.Signature).Recv(); r != nil {
+				if _, isPtr := r.Type().(*types.Pointer); isPtr {
+					if o := f.info().ObjectOf(id); o != nil {
+						if _, varIsPtr := o.Type().Underlying().(*types.Pointer); !varIsPtr {
+							if v, ok := env.vars[o]; ok && v.Clo == nil {
+								env.vars[o] = f.freshVal(o.Type(), id.Name)
+							}
+						}
+					}
+				}
+			}
+		}
+	}
 	f.note("call abstracted (results unconstrained, no effect on modelled state except pointer-to-scalar arguments): " + short)
 	return f.resultsOf(sig, fn.Name())
 }
